@@ -28,8 +28,8 @@ func init() {
 	propTable["C01"].KeyFilter["OP2TABLE"] = keyHas("|query|")
 	propTable["C01"].KeyFilter["NOROWDROP"] = keyHas("ScanPlan", "MultiGetPlan", "ProjectionPlan")
 
-	prop("C02", []string{"PLANMAP", "ROUTE", "NARROWONLYKEY", "ROLECHAIN", "FILTERED", "RMGUARD", "NOROWDROP", "GETNIL", "RANGEALG", "STICKYFLAG", "PREFIXALG", "SCANALG", "ATOMALG"},
-		"Structural necessary conditions of C02: ROUTE (an operator reaches only the region handler its executor semantics justify; anything else is FULL), NARROWONLYKEY (a narrowing region only for atoms on `key`, with bounds taken from the atom's literals), PLANMAP (scan kinds map to the matching plan, ill-formed cases to the full scan, and the access path is not replaced afterwards), ROLECHAIN (start/end/prefix reach Seek and the stop tests in the right roles, inclusive end, nil-guarded), FILTERED (over-approximated regions are harmless because every pair is filtered), RMGUARD (DELETE drops the filter only for pure key sets), NOROWDROP/GETNIL (no consumed row or empty-valued pair is lost on the narrowed paths). STICKYFLAG (an IN list or BETWEEN pair narrows the scan only if every element is a literal; the flag recording that is never set back by a later element). PREFIXALG (the prefix members of the algebra, over all order/prefix structures of the operands: AND keeps every key both operands contain, OR every key of either). SCANALG (the AND/OR combinators themselves over every pair of scan kinds: routing, argument roles and fall-backs). ATOMALG (the atom layer: every operator x operand shape with the literal on either side).",
+	prop("C02", []string{"PLANMAP", "ROUTE", "NARROWONLYKEY", "ROLECHAIN", "FILTERED", "RMGUARD", "NOROWDROP", "GETNIL", "RANGEALG", "STICKYFLAG", "PREFIXALG", "SCANALG", "ATOMALG", "SHORTBATCH"},
+		"Structural necessary conditions of C02: ROUTE (an operator reaches only the region handler its executor semantics justify; anything else is FULL), NARROWONLYKEY (a narrowing region only for atoms on `key`, with bounds taken from the atom's literals), PLANMAP (scan kinds map to the matching plan, ill-formed cases to the full scan, and the access path is not replaced afterwards), ROLECHAIN (start/end/prefix reach Seek and the stop tests in the right roles, inclusive end, nil-guarded), FILTERED (over-approximated regions are harmless because every pair is filtered), RMGUARD (DELETE drops the filter only for pure key sets), NOROWDROP/GETNIL (no consumed row or empty-valued pair is lost on the narrowed paths). STICKYFLAG (an IN list or BETWEEN pair narrows the scan only if every element is a literal; the flag recording that is never set back by a later element). PREFIXALG (the prefix members of the algebra, over all order/prefix structures of the operands: AND keeps every key both operands contain, OR every key of either). SCANALG (the AND/OR combinators themselves over every pair of scan kinds: routing, argument roles and fall-backs). ATOMALG (the atom layer: every operator x operand shape with the literal on either side). SHORTBATCH (batch protocol: a consumer may stop on a short batch only if every producer returns short batches only when exhausted).",
 		"intersectionMget/unionMget (Go maps) are outside the abstract interpreter; combinations deeper than one AND/OR are decided compositionally (each level sound over all operand structures, and the domain is closed: no level yields a range open on both sides).")
 	propTable["C02"].KeyFilter["ATOMALG"] = keyHas("|sound", "|interpretable", "|closed")
 	propTable["C02"].KeyFilter["SCANALG"] = keyHas("|sound", "|interpretable", "|closed")
@@ -37,8 +37,8 @@ func init() {
 	propTable["C02"].KeyFilter["STICKYFLAG"] = keyHas("FilterOptimizer")
 	propTable["C02"].KeyFilter["NOROWDROP"] = keyHas("ScanPlan", "MultiGetPlan")
 
-	prop("C03", []string{"NOROWDROP", "CONSUMED", "FETCHLOOPEND", "CACHECOPY", "ADJUSTCALL", "ARITY", "LISTCOVER", "BODYKIND", "ASTIMMUT", "DISPATCH", "TWINPRIM", "LIMITGATE", "ERRPROP", "EVALBOTH", "FRESHROWS", "ROWINDEX", "ROWCARRY", "ADJUSTCOVER", "ROWCACHE", "FILTERED", "IFACEEQ", "ROWALIAS"},
-		"Structural necessary conditions of C03 (agreement of the row and batch twins): DISPATCH/TWINPRIM (both modes route every operator to corresponding helpers reaching the same primitives with the same literals), BODYKIND (row and vector bodies box the same kinds), ARITY (both modes apply both arity tests), LISTCOVER (both modes handle the same list representations), NOROWDROP/CONSUMED/LIMITGATE/FETCHLOOPEND (batch loops neither drop consumed rows, nor emit skipped ones, nor bypass the limit, nor spin), CACHECOPY/ADJUSTCALL/ASTIMMUT (the chunk cache and the tree are not corrupted by in-place vector operators), ERRPROP on both twins of every plan. EVALBOTH (no batch-only short circuit), ROWINDEX/ROWCARRY (no batch-only reuse of row 0 or of an earlier row's operand), FRESHROWS (batch results never alias plan-owned buffers that the next call rewrites). ADJUSTCOVER (no by-position cache entry of the unfiltered chunk survives filtering). ROWCACHE/FILTERED (row mode does not reuse per-row cache entries of another row and returns only filtered pairs, as batch mode does). IFACEEQ/ROWALIAS (no batch-only comparison or sharing shortcut).",
+	prop("C03", []string{"NOROWDROP", "CONSUMED", "FETCHLOOPEND", "CACHECOPY", "ADJUSTCALL", "ARITY", "LISTCOVER", "BODYKIND", "ASTIMMUT", "DISPATCH", "TWINPRIM", "LIMITGATE", "ERRPROP", "EVALBOTH", "FRESHROWS", "ROWINDEX", "ROWCARRY", "ADJUSTCOVER", "ROWCACHE", "FILTERED", "IFACEEQ", "ROWALIAS", "SHORTBATCH"},
+		"Structural necessary conditions of C03 (agreement of the row and batch twins): DISPATCH/TWINPRIM (both modes route every operator to corresponding helpers reaching the same primitives with the same literals), BODYKIND (row and vector bodies box the same kinds), ARITY (both modes apply both arity tests), LISTCOVER (both modes handle the same list representations), NOROWDROP/CONSUMED/LIMITGATE/FETCHLOOPEND (batch loops neither drop consumed rows, nor emit skipped ones, nor bypass the limit, nor spin), CACHECOPY/ADJUSTCALL/ASTIMMUT (the chunk cache and the tree are not corrupted by in-place vector operators), ERRPROP on both twins of every plan. EVALBOTH (no batch-only short circuit), ROWINDEX/ROWCARRY (no batch-only reuse of row 0 or of an earlier row's operand), FRESHROWS (batch results never alias plan-owned buffers that the next call rewrites). ADJUSTCOVER (no by-position cache entry of the unfiltered chunk survives filtering). ROWCACHE/FILTERED (row mode does not reuse per-row cache entries of another row and returns only filtered pairs, as batch mode does). IFACEEQ/ROWALIAS (no batch-only comparison or sharing shortcut). SHORTBATCH (batch protocol: a consumer may stop on a short batch only if every producer returns short batches only when exhausted).",
 		"Equality of computed values and the refill arithmetic beyond these clauses need execution.")
 
 	prop("C04", []string{"FOLDKIND", "FOLDERR", "REORDERGUARD", "FOLDFLAGS", "BODYKIND", "STICKYFLAG", "ASTIMMUT", "ARGFRESH", "PARSEARGS", "ARMTWIN"},
@@ -62,8 +62,8 @@ func init() {
 	propTable["C07"].KeyFilter["ASSERT"] = keyHas("orderColumnsRow", "FinalOrderPlan")
 	propTable["C07"].KeyFilter["NOROWDROP"] = keyHas("FinalOrderPlan")
 
-	prop("C08", []string{"CONSUMED", "LIMITGATE", "LIMITMAP", "NOROWDROP", "LIMITWRAP", "RMGUARD", "FETCHLOOPEND"},
-		"Structural necessary conditions of C08: LIMITMAP (offset and count are never swapped between the parser and the three consumers), CONSUMED (rows counted as skipped are never emitted; the remaining offset is recomputed per batch; the partial batch continues at batch[remaining:]), NOROWDROP (rows are dropped only on the count condition), LIMITGATE (the pushed-down limit is bypassed only when absent), LIMITWRAP/RMGUARD (DELETE ... LIMIT limits the raw pairs and never takes the key-removal shortcut), FETCHLOOPEND (skipping past the end terminates).",
+	prop("C08", []string{"CONSUMED", "LIMITGATE", "LIMITMAP", "NOROWDROP", "LIMITWRAP", "RMGUARD", "FETCHLOOPEND", "SHORTBATCH"},
+		"Structural necessary conditions of C08: LIMITMAP (offset and count are never swapped between the parser and the three consumers), CONSUMED (rows counted as skipped are never emitted; the remaining offset is recomputed per batch; the partial batch continues at batch[remaining:]), NOROWDROP (rows are dropped only on the count condition), LIMITGATE (the pushed-down limit is bypassed only when absent), LIMITWRAP/RMGUARD (DELETE ... LIMIT limits the raw pairs and never takes the key-removal shortcut), FETCHLOOPEND (skipping past the end terminates). SHORTBATCH (batch protocol: a consumer may stop on a short batch only if every producer returns short batches only when exhausted).",
 		"The count arithmetic over refills is a runtime quantity.")
 	propTable["C08"].KeyFilter["RMGUARD"] = keyHas("no-limit")
 
@@ -79,8 +79,8 @@ func init() {
 
 	propTable["C10"].KeyFilter["STICKYFLAG"] = keyHas("ExpressionOptimizer")
 
-	prop("C11", []string{"RMGUARD", "DELKEYS", "MUTSITE", "CHILDVISIT", "LIMITWRAP", "LIMITMAP", "ERRPROP", "NOROWDROP", "CONSUMED", "ARGFRESH"},
-		"Structural necessary conditions of C11: DELKEYS (BatchDelete receives exactly the keys of the rows fetched in that iteration), MUTSITE(e) (DELETE issues no Put), RMGUARD with CHILDVISIT(Walk) (direct key removal only without LIMIT and without any AND anywhere in the filter; the walk sees every node), LIMITWRAP/LIMITMAP/CONSUMED/NOROWDROP (the limit is applied to the raw pairs, exactly), ERRPROP in execute. ARGFRESH (no function applied in the WHERE clause rewrites the key bytes that are then handed to BatchDelete).",
+	prop("C11", []string{"RMGUARD", "DELKEYS", "MUTSITE", "CHILDVISIT", "LIMITWRAP", "LIMITMAP", "ERRPROP", "NOROWDROP", "CONSUMED", "ARGFRESH", "SHORTBATCH"},
+		"Structural necessary conditions of C11: DELKEYS (BatchDelete receives exactly the keys of the rows fetched in that iteration), MUTSITE(e) (DELETE issues no Put), RMGUARD with CHILDVISIT(Walk) (direct key removal only without LIMIT and without any AND anywhere in the filter; the walk sees every node), LIMITWRAP/LIMITMAP/CONSUMED/NOROWDROP (the limit is applied to the raw pairs, exactly), ERRPROP in execute. ARGFRESH (no function applied in the WHERE clause rewrites the key bytes that are then handed to BatchDelete). SHORTBATCH (batch protocol: a consumer may stop on a short batch only if every producer returns short batches only when exhausted).",
 		"Which keys the filter selects is C01/C02/C08.")
 	propTable["C11"].KeyFilter["MUTSITE"] = keyHas("MUTSITE|e|", "MUTSITE|a|")
 	propTable["C11"].KeyFilter["CHILDVISIT"] = keyHas("|Walk|")
